@@ -19,6 +19,37 @@ ROOT = os.path.dirname(os.path.dirname(os.path.abspath(__file__)))
 PY = "/venv/bin/python"
 
 
+def in_repo(a):
+    d = os.path.join(ROOT, "seeded", a.id)
+    dirty = subprocess.run(["git", "-C", "/repo", "status", "--porcelain"], capture_output=True, text=True).stdout.strip()
+    if dirty:
+        print("refusing: /repo has uncommitted changes")
+        return 2
+    out = {}
+    patch = os.path.join(d, "patch.diff")
+    if subprocess.call(["git", "-C", "/repo", "apply", patch]) != 0:
+        # the patch was written against an earlier HEAD (later fix: commits moved the context): apply with fuzz instead
+        subprocess.check_call(["patch", "-p1", "-s", "--no-backup-if-mismatch", "-d", "/repo", "-i", patch])
+    try:
+        for prop in a.props.split(","):
+            for seed in a.seeds.split(","):
+                env = dict(os.environ, VERIF_SEED=seed)
+                env.pop("VF_REPO", None)
+                cmd = [PY, "-m", "vf.run", prop, "--tier", a.tier, "--no-evidence"] + (["--only", a.only] if a.only else [])
+                rc = subprocess.run(cmd, env=env, cwd=ROOT, capture_output=True, text=True, timeout=14400)
+                sig = [l.strip()[:160] for l in rc.stdout.splitlines() if l.startswith("  failing sub-check")][:1]
+                out["%s@%s" % (prop, seed)] = {"exit": rc.returncode, "caught": rc.returncode == 1, "first": sig}
+                print(a.id, "[in /repo]", prop, "seed", seed, "exit", rc.returncode, sig)
+    finally:
+        subprocess.check_call(["git", "-C", "/repo", "checkout", "--", "."])
+    if a.record:
+        mp = os.path.join(d, "meta.json")
+        meta = json.load(open(mp))
+        meta.setdefault("rerun_in_repo", {}).update(out)
+        json.dump(meta, open(mp, "w"), indent=1)
+    return 0
+
+
 def main():
     ap = argparse.ArgumentParser()
     ap.add_argument("id")
@@ -27,7 +58,10 @@ def main():
     ap.add_argument("--only", default=None)
     ap.add_argument("--tier", default="quick")
     ap.add_argument("--record", action="store_true")
+    ap.add_argument("--in-repo", action="store_true", help="literal procedure: git -C /repo apply <patch>, run, git -C /repo checkout -- . (only when nothing else uses /repo)")
     a = ap.parse_args()
+    if a.in_repo:
+        return in_repo(a)
     d = os.path.join(ROOT, "seeded", a.id)
     tmp = tempfile.mkdtemp(prefix="sfseed-", dir="/tmp")
     out = {}
